@@ -17,9 +17,12 @@ import Bng.Model.HaSync
     store | recv | active    => <table>            table = s1=3,s2=4 sorted by id, or -
   end to end over loopback                       (`e2e`)
     add … | update … | delete …  => ok            (change + the broadcaster drains it + the stream delivers it)
-    connect                  => ok                 (full sync, then stream attach)
-    gapconnect               => ok <table>         (full sync answered, stream request held back)
-    release                  => ok                 (the held stream request goes through)
+    connect                  => ok req=S200,T200   (full sync, then stream attach; req = the standby's requests as the
+                                                    network saw them complete)
+    gapconnect               => ok <table> req=S200  (full sync answered, stream request held back)
+    release                  => ok req=T200        (the held stream request goes through)
+    streamfail               => ok <table> req=S200,T503   (snapshot answered, stream endpoint answers 503)
+    streamup                 => ok req=S200,T200           (the endpoint works again; the standby's own retry attaches)
     cut                      => ok
     settle                   => <table>            (standby table once it stopped changing)
     ghost open | ghost close => ok | already | none   (another stream client of the active on the same host)
@@ -35,6 +38,8 @@ structure St where
   up    : Bool := false      -- e2e: the harness asked for the link to be up
   gap   : Bool := false      -- e2e: full sync done, stream request held
   ghost : Bool := false      -- e2e: another stream client of the active is connected
+  faulty : Bool := false     -- e2e: the stream endpoint is failing (streamfail … streamup)
+  pc    : Pc := .top         -- e2e: where the standby's connection loop stands
 
 def showT (t : Table) : String := showTable (sorted t)
 
@@ -172,8 +177,45 @@ def stepMsg (st : St) (m : HaSync.State) (toks : List String) (impl : String) : 
   | ["active"] => finish st m (showT m.table) []
   | _ => (st, { modelObs := "badop" })
 
+/-- `req=S200,T503` → [(false, 200), (true, 503)] -/
+def parseReqs (impl : String) : List (Bool × Nat) :=
+  match (splitTokens impl).find? (·.startsWith "req=") with
+  | none => []
+  | some t =>
+    let body := (t.drop 4).toString
+    if body == "-" then [] else
+    (body.splitOn ",").filterMap fun r =>
+      match r.toList with
+      | 'S' :: rest => (String.ofList rest).toNat?.map fun n => (false, n)
+      | 'T' :: rest => (String.ofList rest).toNat?.map fun n => (true, n)
+      | _ => none
+
+def showReqs (l : List LoopEv) : String :=
+  let rs := l.filterMap fun e => match e with
+    | .syncOk => some "S200" | .syncFail => some "S503" | .streamOk => some "T200" | .streamFail => some "T503"
+    | _ => none
+  if rs.isEmpty then "-" else ",".intercalate rs
+
+/-- the standby's loop takes these steps: advance its program counter (refusing what `standbyLoop` cannot do) and
+    apply what they mean to the data model -/
+def loopDo (st : St) (m : HaSync.State) (evs : List LoopEv) : Option (St × HaSync.State) :=
+  match loopRun st.pc evs with
+  | none => none
+  | some pc' =>
+    let ops := evs.flatMap LoopEv.toOps
+    some ({ st with pc := pc' }, drain 64 (ops.foldl (fun acc op => (HaSync.step acc op).1) m))
+
+def tableEv (itoks : List String) : Ev :=
+  match itoks with
+  | "ok" :: t :: _ => match parseTable t with
+    | some l => Ev.fullSynced l
+    | none => .nop
+  | _ => .nop
+
 def stepE2E (st : St) (m : HaSync.State) (toks : List String) (impl : String) : St × LineResult :=
   let itoks := splitTokens impl
+  let reqs := Ev.requests (parseReqs impl)
+  let bad : St × LineResult := (st, { modelObs := "badloop" })
   match parseChange toks with
   | some ch =>
     let (m1, o) := HaSync.step m (opOfChange ch)
@@ -183,25 +225,54 @@ def stepE2E (st : St) (m : HaSync.State) (toks : List String) (impl : String) : 
   match toks with
   | ["connect"] =>
     if st.up then (st, { modelObs := "already" }) else
-    let m' := drain 64 (HaSync.attach (HaSync.fullSync m).1).1
-    finish { st with up := true } m' "ok" (if impl == "ok" then [.fullSyncedBlind, .attached] else [])
+    let evs := [LoopEv.syncOk, .streamOk]
+    match loopDo st m evs with
+    | none => bad
+    | some (st, m') =>
+      finish { st with up := true } m' s!"ok req={showReqs evs}"
+        ([reqs] ++ (if impl.startsWith "ok" then [.fullSyncedBlind, .attached] else []))
   | ["gapconnect"] =>
     if st.up then (st, { modelObs := "already" }) else
-    let (m', o) := HaSync.fullSync m
-    let ev := match itoks with
-      | ["ok", t] => match parseTable t with
-        | some l => Ev.fullSynced l
-        | none => .nop
-      | _ => .nop
-    finish { st with up := true, gap := true } m' (showObs o) [ev]
+    let evs := [LoopEv.syncOk]
+    match loopDo st m evs with
+    | none => bad
+    | some (st, m') =>
+      finish { st with up := true, gap := true } m' s!"ok {showT m'.store} req={showReqs evs}" [reqs, tableEv itoks]
   | ["release"] =>
     if !st.up then (st, { modelObs := "notconnected" }) else
-    let m' := if st.gap then drain 64 (HaSync.attach m).1 else m
-    finish { st with gap := false } m' "ok" (if st.gap && impl == "ok" then [.attached] else [])
+    if !st.gap then finish st m "ok" [] else
+    let evs := [LoopEv.streamOk]
+    match loopDo st m evs with
+    | none => bad
+    | some (st, m') =>
+      finish { st with gap := false } m' s!"ok req={showReqs evs}" ([reqs] ++ (if impl.startsWith "ok" then [.attached] else []))
+  | ["streamfail"] =>
+    -- the snapshot is answered, the stream attempt fails, the standby backs off and is about to sync again
+    if st.up then (st, { modelObs := "already" }) else
+    let evs := [LoopEv.syncOk, .streamFail, .wake]
+    match loopDo st m evs with
+    | none => bad
+    | some (st, m') =>
+      finish { st with up := true, faulty := true } m' s!"ok {showT m'.store} req={showReqs evs}" [reqs, tableEv itoks]
+  | ["streamup"] =>
+    if !st.up || !st.faulty then (st, { modelObs := "none" }) else
+    let evs := [LoopEv.syncOk, .streamOk]
+    match loopDo st m evs with
+    | none => bad
+    | some (st, m') =>
+      finish { st with faulty := false } m' s!"ok req={showReqs evs}"
+        ([reqs] ++ (if impl.startsWith "ok" then [.fullSyncedBlind, .attached] else []))
   | ["cut"] =>
     if !st.up then (st, { modelObs := "notconnected" }) else
-    let m' := (HaSync.disconnect m).1
-    finish { st with up := false, gap := false } m' "ok" [.disconnected]
+    let evs := match st.pc with
+      | .streaming => [LoopEv.streamEnd, .wake]
+      | .afterSync => [LoopEv.streamFail, .wake]
+      | _ => []
+    match loopDo st m evs with
+    | none => bad
+    | some (st, m') =>
+      let m' := (HaSync.disconnect m').1
+      finish { st with up := false, gap := false, faulty := false } m' "ok" [.disconnected]
   | ["settle"] =>
     let m' := drain 64 m
     finish st m' (showT m'.store) [.drained, match parseTable impl with | some l => .table l | none => .nop]
